@@ -39,7 +39,8 @@ class C09(Prop):
     id = "C09"
     lean_modules = ["PkgProofs.Props.C09"]
     generated = ["MarkerTok"]
-    theorems = ["C09.str_is_spelled_tokens", "C09.format_parses_back", "C09.format_preserves_grouping",
+    theorems = ["C09.str_roundtrip_char", "C09.marker_roundtrip_char", "MkLex.lex", "MkLexP.parse_spell_print",
+                "C09.str_is_spelled_tokens", "C09.format_parses_back", "C09.format_preserves_grouping",
                 "C09.literal_preserved", "C09.outer_parentheses_dropped", "C09.literal_quote_safe",
                 "C09.literal_eval_roundtrip", "C09.extra_normalised_everywhere", "C09.extra_spelling_normalised",
                 "C09.normalize_idem", "C09.eq_iff_same_str", "C09.eq_equivalence", "C09.hash_agrees",
@@ -55,10 +56,10 @@ class C09(Prop):
                "for the literals at hand are computed on the real code and passed as data",
                "ast.literal_eval of a QUOTED_STRING token as modelled by Mk.pyStrLit (escape decoding; \\N{...} not modelled)",
                "hash() as an uninterpreted function of (class name, str)"]
-    partial = ["format_parses_back / format_preserves_grouping / literal_preserved are proved for the parser run on the token "
-               "sequence of _format_marker (str_is_spelled_tokens: str = that sequence spelled with single spaces); that the "
-               "character-level tokenizer recovers these tokens from the spelling is proved only for literals "
-               "(literal_quote_safe) and otherwise tied by the correspondence (mk.rt re-parses str) and kernel-evaluated examples",
+    partial = ["the character-level round trip (str_roundtrip_char, marker_roundtrip_char) assumes canonical comparisons: "
+               "variables among the twelve canonical names (what process_env_var produces: one_spelling_per_variable), the ten "
+               "operators, literals free of backslash/CR/LF/NUL/surrogates and not containing both quote characters; that the "
+               "parser only ever produces such variables/operators is tied by the correspondence, not proved",
                "Requirement(s).marker == Marker(s) is a law on the real code only (the requirement parser is C08's model)",
                "literals containing a backslash are outside the PEP 508 string alphabet: literal_eval's escape processing is "
                "modelled and corresponds, but such literals do not round-trip (str does not re-escape) and no theorem covers them"]
